@@ -171,22 +171,7 @@ func (b *combineBuffer) combine() error {
 	dimensions := p.Dimensions().ToSet()
 	set := make([]edge.FieldsTagsTimeSetter, l)
 	return b.c.Do(len(b.points), l, func(indices []int) error {
-		valid := true
-		for s := 0; s < l; s++ {
-			found := false
-			for i := range indices {
-				if matches[s][indices[i]] {
-					set[s] = b.points[indices[i]]
-					indices = append(indices[0:i], indices[i+1:]...)
-					found = true
-					break
-				}
-			}
-			if !found {
-				valid = false
-				break
-			}
-		}
+		valid := b.assign(matches, indices, set, 0)
 		if valid {
 			fields, tags, t := b.merge(set, dimensions)
 
@@ -204,6 +189,28 @@ func (b *combineBuffer) combine() error {
 		}
 		return nil
 	})
+}
+
+// assign finds, for the expressions s.. in order, distinct members of the candidate combination that match them
+// and stores them in set. The members are tried in order and a choice is taken back when the remaining expressions
+// cannot be served, so an assignment is found whenever one exists, independently of the order of the expressions,
+// and it is the one the former first-match walk found whenever that walk succeeded.
+// A used member is marked in indices by the negative value -1-idx.
+func (b *combineBuffer) assign(matches []map[int]bool, indices []int, set []edge.FieldsTagsTimeSetter, s int) bool {
+	if s == len(set) {
+		return true
+	}
+	for i, idx := range indices {
+		if idx >= 0 && matches[s][idx] {
+			set[s] = b.points[idx]
+			indices[i] = -1 - idx
+			if b.assign(matches, indices, set, s+1) {
+				return true
+			}
+			indices[i] = idx
+		}
+	}
+	return false
 }
 
 // Merge a set of points into a single point.
